@@ -353,8 +353,10 @@ theorem createCooler_sat {fs : FS} (hl : SatFS Q fs) {f : String} {p : Path} {mo
       · rename_i h1 P hmk
         split at hc
         · rw [← (Prod.mk.inj hc).1]; exact hl1
-        · rw [← (Prod.mk.inj hc).1]
-          exact sat_setFile hl1 (sat_putRegion (mkdirP_sat fs1 f _ hh [] h1 P hlh hmk) _ (regionSat_coolerRegion _ _) _)
+        · split at hc
+          · rw [← (Prod.mk.inj hc).1]; exact hl1
+          · rw [← (Prod.mk.inj hc).1]
+            exact sat_setFile hl1 (sat_putRegion (mkdirP_sat fs1 f _ hh [] h1 P hlh hmk) _ (regionSat_coolerRegion _ _) _)
 
 theorem setNote_sat {fs : FS} (hl : SatFS Q fs) {f value : String} {fs' : FS} {oc : Outcome}
     (h : setNote fs f value = (fs', oc)) : SatFS Q fs' := by
